@@ -115,5 +115,6 @@ Definition allow_used (g : list edge) (effs : list effsite) (off roots : list po
 Definition ambient (e : eff) : bool :=
   match e with GlobalNumpyRNG | PyRandom | WallClock | ProcEntropy | DynamicCode => true | _ => false end.
 Definition hash_order (e : eff) : bool := match e with HashOrderIter => true | _ => false end.
+Definition pickle_hook (e : eff) : bool := match e with CustomPickle => true | _ => false end.
 Definition shared_write (e : eff) : bool :=
   match e with ModuleGlobalWrite | ClassAttrWrite => true | _ => false end.
